@@ -142,6 +142,10 @@ class View:
 
         return self._st.obj(v.ref).get("I", IT.LIForm.nil)
 
+    def soft(self, v):
+        """soft clauses of a WCNF value (set term)"""
+        return self._st.obj(v.ref)["soft"]
+
     def S(self, v):
         """soft constraints of a z3 Optimize value (list term)"""
         return self._st.obj(v.ref).get("S", L.LForm.nil)
@@ -916,6 +920,8 @@ class Executor:
             return
         if o["kind"] == "solver":
             self.st.update(ref, A=self.st.fresh_const("A", L.WSet))
+            if "soft" in o:
+                self.st.update(ref, soft=self.st.fresh_const("soft", o["soft"].sort()))  # soft clauses of a WCNF
             if soft and "S" in o:
                 self.st.update(ref, S=self.st.fresh_const("S", L.LForm.sort))  # soft constraints of an Optimize
             if self._ints_stack and self._ints_stack[-1]:
